@@ -50,4 +50,13 @@ Section Client3.
   (** the issuer's configuration for the same name key *)
   Definition issuer_cfg (nk : encap) : list byte := u8 (e_id nk) ++ u16 (e_kem nk) ++ u16 (e_kdf nk) ++ u16 (e_aead nk).
 End Client3.
+
+(** ** the response key schedule shared by issuer (issuer.go:218-233) and client (client.go:126-147), for the fixed
+    suite HKDF-SHA256 / AES-128-GCM: salt = encapsulated key || response nonce (16 bytes = max(Nk, Nn)),
+    prk = Extract(salt, secret), key = Expand(prk, "key", 16), nonce = Expand(prk, "nonce", 12) *)
+Definition label_key : list byte := map n2b [107; 101; 121].                  (* "key" *)
+Definition label_nonce : list byte := map n2b [110; 111; 110; 99; 101].       (* "nonce" *)
+Definition response_keys (secret enc rnonce : list byte) : list byte * list byte :=
+  let prk := hkdf_extract p256 (enc ++ rnonce) secret in
+  (hkdf_expand p256 prk label_key 16, hkdf_expand p256 prk label_nonce 12).
 Close Scope N_scope.
